@@ -77,6 +77,8 @@ fn class_weights(mode: Prop, kind: Kind, mbuff_len: usize) -> Vec<(Class, u32)> 
             w.push((Class::HarmlessInvalid, 2));
             w.push((Class::Unsafe, 1));
             w.push((Class::StackPlain, 1));
+            w.push((Class::StackLeakWrite, 1));
+            w.push((Class::StackLeakRead, 2));
             if kind != Kind::Fixed {
                 // on the fixed-metadata VM r1 is the VM's private buffer: not comparable across VMs
                 w.push((Class::R1Plain, 1));
@@ -140,7 +142,13 @@ pub fn generate(rng: &mut Rng, mode: Prop) -> Scenario {
         let n = rng.range(3, 4);
         for i in 0..n {
             let len = if i == 0 {
-                rng.range(40, 64)
+                // the packet every probe of the pool is made for; sometimes long enough for packet
+                // offsets beyond the 8-, 15- and 16-bit limits
+                match rng.below(10) {
+                    0 => rng.range(300, 400),
+                    1 => rng.range(66000, 70000),
+                    _ => rng.range(40, 64),
+                }
             } else {
                 match rng.below(20) {
                     0..=3 => 0,
@@ -192,12 +200,14 @@ pub fn generate(rng: &mut Rng, mode: Prop) -> Scenario {
                 gen_slot_plain(tag, d, e)
             }
             Class::ProbePktAbs => {
-                let idx = rng.below((p0len - 8) as u64 + 1) as usize;
+                let idx = pick_pkt_index(rng, p0len - 8);
                 gen_probe_pkt_abs(tag, idx, *rng.pick(&[1u8, 1, 2, 4, 8]))
             }
             Class::ProbePktInd => {
-                let idx = rng.below(8) as usize;
-                let reg = rng.below((p0len - 8 - idx) as u64 + 1) as usize;
+                // the index is split between the immediate and the register, either may be the large part
+                let total = pick_pkt_index(rng, p0len - 8);
+                let idx = if rng.chance(1, 2) { rng.below(8.min(total as u64 + 1)) as usize } else { total - rng.below(8.min(total as u64 + 1)) as usize };
+                let reg = total - idx;
                 gen_probe_pkt_ind(tag, idx, reg, *rng.pick(&[1u8, 1, 2, 4, 8]))
             }
             Class::ProbeR1Load => {
@@ -210,6 +220,8 @@ pub fn generate(rng: &mut Rng, mode: Prop) -> Scenario {
                 gen_stack_plain(rng, tag, with_call)
             }
             Class::StorePkt => gen_store_pkt(rng, tag),
+            Class::StackLeakWrite => gen_stack_leak_write(rng, tag),
+            Class::StackLeakRead => gen_stack_leak_read(tag),
         };
         progs.push(p);
     }
@@ -295,6 +307,19 @@ pub fn generate(rng: &mut Rng, mode: Prop) -> Scenario {
         }
     }
     sc
+}
+
+/// A packet offset in 0..=max, biased towards the places where an encoding changes size.
+fn pick_pkt_index(rng: &mut Rng, max: usize) -> usize {
+    let marks = [0usize, 0x7f, 0x80, 0xff, 0x100, 0x7fff, 0x8000, 0xffff, 0x10000];
+    let usable: Vec<usize> = marks.iter().copied().filter(|m| *m <= max).collect();
+    if max > 64 && rng.chance(2, 3) {
+        let m = *rng.pick(&usable);
+        let lo = m.saturating_sub(4);
+        let hi = (m + 4).min(max);
+        return rng.range(lo as u64, hi as u64) as usize;
+    }
+    rng.below(max as u64 + 1) as usize
 }
 
 fn gen_new(rng: &mut Rng, sc: &Scenario, offsets: &[(usize, usize)]) -> Op {
